@@ -59,10 +59,18 @@ impl SpeechGenerator {
         self.next
     }
 
+    /// Read-only view of the (spectrum, log-F0, low-pass) parameter trajectories this generator renders.
+    #[cfg(feature = "verif-hooks")]
+    pub fn verif_parameters(&self) -> (&[Vec<f64>], &[Vec<f64>], &[Vec<f64>]) {
+        (&self.spectrum, &self.lf0, &self.lpf)
+    }
+
     /// Generate speech of length `fperiod` in `speech`.
     ///
     /// The length of `speech` must be longer than `fperiod`, otherwise, this function will panic.
     pub fn generate_step(&mut self, speech: &mut [f64]) -> usize {
+        #[cfg(feature = "verif-hooks")]
+        crate::verif::point("speech.step");
         if self.lf0.len() <= self.next {
             return 0;
         }
